@@ -77,7 +77,8 @@ pub fn generate_module(
     let mut entry_point_names = Vec::new();
     if let Some(pipeline) = module.selected_pipeline {
         for stage in &module.pipelines[pipeline].stages {
-            entry_point_names.push(context.get_function_name(stage.entry_point)?.to_string());
+            // The entry point may be declared inside a namespace: report the path that names it from the root
+            entry_point_names.push(context.get_function_name_full(stage.entry_point)?.0.join("::"));
         }
     }
 
